@@ -708,8 +708,22 @@ def ret_check(doc, op, ret):
     return None if ret[1] == want else ("returned-value", want, ret[1])
 
 
+_REPARSE_MEMO = {}
+
+
 def impl_view_fresh(text):
-    """fresh parse -> ([[(name, value)]], has_error)"""
+    """fresh parse -> ([[(name, value)]], has_error).  In the deep families (route "reparse-memo") the answer for a
+    text that was parsed before in this unit is re-used: thousands of histories end in the same few hundred dumps"""
+    if check_step.memo:
+        if text not in _REPARSE_MEMO:
+            if len(_REPARSE_MEMO) > 20000:
+                _REPARSE_MEMO.clear()
+            check_step.memo = False
+            try:
+                _REPARSE_MEMO[text] = impl_view_fresh(text)
+            finally:
+                check_step.memo = True
+        return _REPARSE_MEMO[text]
     f = parse_impl(text)
     out = []
     for p in f:
@@ -941,14 +955,18 @@ def check_step(f, doc, op):
 
 check_step.nl_liberty = "strict"
 check_step.wide = False
+check_step.memo = False
 
 
 def _route(route):
-    """route = None | {"origin": one of ORIGINS, "wide": bool} -> (origin, signature prefix)"""
+    """route = None | {"origin": one of ORIGINS, "wide": bool, "family": signature prefix of a ladder / deep family}
+    -> (origin, signature prefix)"""
     route = route or {}
     check_step.wide = bool(route.get("wide"))
+    check_step.memo = bool(route.get("reparse-memo"))
     origin = route.get("origin", "str")
-    return origin, ("via-%s/" % origin if origin != "str" else "")
+    fam = route.get("family")
+    return origin, (fam + "/" if fam else "") + ("via-%s/" % origin if origin != "str" else "")
 
 
 def run_history(spec, history, nl_liberty, route=None):
@@ -998,7 +1016,7 @@ def run_last(spec, prefix, doc_before, op, nl_liberty, route=None):
 
 
 def explore(part, spec, ops_fn, tree_depth, graph_depth, nl_liberty, base_case, graph_ops_fn=None, extend=None,
-            ops2_fn=None):
+            ops2_fn=None, first_slice=None):
     """tree mode to tree_depth (every history replayed), then graph mode (dedupe on the model document) to
     graph_depth with graph_ops_fn's (smaller) alphabet.  extend(op): every operation is applied and checked at every
     level, but only histories whose operations all satisfy extend() are extended further."""
@@ -1024,9 +1042,11 @@ def explore(part, spec, ops_fn, tree_depth, graph_depth, nl_liberty, base_case, 
     seen = {repr(to_spec(doc0))}
 
     def rec(hist, doc):
-        for op in (ops_fn if not hist or ops2_fn is None else ops2_fn)(doc):
-            if not enabled(doc, op):
-                continue
+        ops = [op for op in (ops_fn if not hist or ops2_fn is None else ops2_fn)(doc) if enabled(doc, op)]
+        if not hist and first_slice is not None:
+            # (a unit explores the histories whose first operation is the k-th of every m enabled ones)
+            ops = ops[first_slice[0]::first_slice[1]]
+        for op in ops:
             nd, viol = run_last(spec, hist, doc, op, nl_liberty, route)
             part.transitions += 1
             part.evaluations += 1
@@ -1076,3 +1096,150 @@ def explore(part, spec, ops_fn, tree_depth, graph_depth, nl_liberty, base_case, 
         seen |= gseen
     part.states += len(seen)
     part.nontrivial += len(seen) - 1
+
+
+# ---------------------------------------------------------------- beyond the small scope: count / size ladders, deep alphabets
+
+LADDER_NS = {"small": list(range(1, 41)), "mid": [63, 64, 65, 100, 127, 128, 129, 255, 256, 257],
+             "big": [999, 1000, 1001, 1025], "huge": [2500, 2501, 5000]}
+SIZE_LS = [997, 998, 999, 1000, 4095, 4096, 4097, 16383, 16384, 16385, 65535, 65536, 65537, 131071, 131072, 131073,
+           262143, 262144, 262145]
+
+
+def open_tail(spec):
+    """the same document without the newline of its very last line"""
+    doc = from_spec(spec)
+    last = None
+    for it, f in pieces(doc):
+        if f is not None or it[1]:
+            last = (it, f)
+    it, f = last
+    if f is None:
+        it[1] = it[1][:-1]
+    else:
+        f.body = f.body[:-1]
+    return to_spec([x for x in doc if x[0] == "par" or x[1]])
+
+
+def straddle_text(L, lead=0):
+    """L characters; when the text starts at byte offset `lead` of a UTF-8 file, a two-byte character straddles every
+    multiple of 4096 bytes (its first byte is the last byte of a block)"""
+    out = []
+    nbytes = lead
+    nchars = 0
+    B = 4096
+    while True:
+        fill = B - 1 - nbytes
+        if fill < 0:
+            B += 4096
+            continue
+        if nchars + fill + 1 > L - 1:
+            break
+        out.append("a" * fill + "\u00e9")
+        nchars += fill + 1
+        nbytes = B + 1
+        B += 4096
+    out.append(("bcdefghij" * ((L - nchars) // 9 + 1))[:L - nchars])
+    t = "".join(out)
+    assert len(t) == L
+    return t
+
+
+def sized_text(L, content, lead=0):
+    """a single line of exactly L characters built to expose block-wise processing: `content` names what sits just
+    before, exactly at, or across every multiple of 4096 (256 for short texts) inside, in the middle and just before the
+    last character - a blank, two blanks, a `w: `, two multi-byte characters, ` #`, a tab, or nothing (plain filler)"""
+    filler = "abcdefghij"
+    base = (filler * (L // 10 + 1))[:L]
+    if content == "plain" or L < 8:
+        return base
+    if content == "straddle":
+        return straddle_text(L, lead)
+    if content == "words":
+        # nine-letter words separated by single blanks (the last character is a letter)
+        out = ("abcdefghi " * (L // 10 + 1))[:L]
+        return out if out[-1] != " " else out[:-1] + "z"
+    mark = {"blank": " ", "colon": "w: ", "multibyte": "\u00e9\u5b57", "hash": " #", "tab": "\t", "blanks": "  ",
+            "cr": "\r"}[content]
+    t = list(base)
+    step = 4096 if L > 4097 else 256
+    k = len(mark)
+    # the mark ends exactly at a boundary, starts exactly at it, or straddles it - in rotation over the boundaries
+    for j, m in enumerate(list(range(step, L, step)) + [L // 2 + 1, L - 1]):
+        sp = (m - k, m, m - 1)[j % 3] if m != L - 1 else L - 1 - k
+        if 1 <= sp and sp + k <= L - 1:
+            t[sp:sp + k] = list(mark)
+    out = "".join(t)
+    assert len(out) == L and out == out.strip() and "\n" not in out, (L, content)
+    return out
+
+
+def ladder_spec(desc):
+    """compact description -> document spec.  desc = {"kind": ..., "n": count | L, "tail": "closed" | "open", ...}:
+      fields      one paragraph of n fields K1..Kn (document order is not sorted order; every 5th field has a comment
+                  line of its own, every 7th a continuation line)
+      dups        one paragraph with n occurrences of A (values a1..an) and one B after the first half of them
+      dups-mixed  n occurrences of A alternating with n occurrences of b/B (case variants)
+      paragraphs  n paragraphs (P: j, and Q: j in every other one), every 4th separator carries a free comment
+      lines       A, then a field L with n continuation lines (every 6th preceded by a comment line), then B
+                  ("pos": "last" puts L at the end of the paragraph)
+      comments    a field with n comment lines of its own, between two plain fields
+      gap         two paragraphs separated by n blank lines;  gap-comments: by a blank line, n comment lines, a blank line
+      trailing    a paragraph followed by n blank lines
+      size        A, then a field V whose value is one line of n characters (content = plain | blank | colon |
+                  multibyte | hash | tab), then B;  "multi": True makes it the second line of a two-line value"""
+    kind, n = desc["kind"], desc["n"]
+    F = lambda name, v: (name, "", "%s: %s\n" % (name, v))
+    if kind == "fields":
+        fs = []
+        for i in range(1, n + 1):
+            name = "K%d" % i
+            fs.append((name, "#about %s\n" % name if i % 5 == 3 else "",
+                       "%s: v%d\n" % (name, i) + (" more %d\n" % i if i % 7 == 5 else "")))
+        spec = [("par", fs)]
+    elif kind == "dups":
+        fs = [F("A", "a%d" % i) for i in range(1, n + 1)]
+        fs.insert((n + 1) // 2, F("B", "b"))
+        spec = [("par", fs)]
+    elif kind == "dups-mixed":
+        fs = []
+        for i in range(1, n + 1):
+            fs.append(F("A", "a%d" % i))
+            fs.append(F("b" if i % 2 else "B", "b%d" % i))
+        spec = [("par", fs)]
+    elif kind == "paragraphs":
+        spec = []
+        for j in range(1, n + 1):
+            if j > 1:
+                spec.append(("raw", "\n#free %d\n\n" % j if j % 4 == 0 else "\n"))
+            spec.append(("par", [F("P", "p%d" % j)] + ([F("Q", "q%d" % j)] if j % 2 else [])))
+    elif kind == "lines":
+        body = "L: first\n" + "".join(("#in %d\n" % i if i % 6 == 0 else "") + " line %d\n" % i for i in range(1, n + 1))
+        fs = [F("A", "1"), ("L", "", body), F("B", "2")]
+        if desc.get("pos") == "last":
+            fs = [fs[0], fs[2], fs[1]]
+        spec = [("par", fs)]
+    elif kind == "comments":
+        spec = [("par", [F("A", "1"), ("C", "".join("#c %d\n" % i for i in range(1, n + 1)), "C: c\n"), F("B", "2")])]
+    elif kind == "gap":
+        spec = [("par", [F("A", "1"), F("B", "2")]), ("raw", "\n" * n), ("par", [F("C", "3")])]
+    elif kind == "gap-comments":
+        spec = [("par", [F("A", "1"), F("B", "2")]), ("raw", "\n" + "".join("#g %d\n" % i for i in range(1, n + 1)) + "\n"),
+                ("par", [F("C", "3")])]
+    elif kind == "trailing":
+        spec = [("par", [F("A", "1"), F("B", "2")]), ("raw", "\n" * n)]
+    elif kind == "size":
+        text = sized_text(n, desc.get("content", "plain"))
+        v = ("V", "", "V: head\n %s\n" % text) if desc.get("multi") else F("V", text)
+        fs = [F("A", "1"), v, F("B", "2")]
+        if desc.get("pos") == "last":
+            fs = [fs[0], fs[2], fs[1]]
+        spec = [("par", fs)]
+    else:
+        raise AssertionError(desc)
+    return open_tail(spec) if desc.get("tail") == "open" else spec
+
+
+def case_spec(case):
+    """the document of a case: stored as it is ("doc") or as the compact description it is generated from ("ladder")"""
+    return case["doc"] if "doc" in case else ladder_spec(case["ladder"])
